@@ -745,3 +745,43 @@ silent('c10-mtime-init', 'C10',
        [(POL, "        mtime = 0\n        if os.path.exists(path):", "        mtime = -1\n        if os.path.exists(path):")])
 silent('c10-rules-changed-init', ['C10'],
        [(POL, "        rules_changed = False\n        reloaded, data", "        rules_changed = bool(0)\n        reloaded, data")])
+
+# ------------------------------------------------------------------ C11
+fire('c11-drop-alias-exception', 'C11',
+     [(POL, "                file_rule.check != deprecated_rule.check and\n                str(file_rule.check) != 'rule:%s' % default.name and\n",
+       "                file_rule.check != deprecated_rule.check and\n")], 'C11.TABLE')
+fire('c11-return-old-default', 'C11',
+     [(POL, "                return self.file_rules[deprecated_rule.name].check", "                return deprecated_rule.check")], 'C11.TABLE')
+fire('c11-or-cond-or', 'C11',
+     [(POL, "            not self.conf.oslo_policy.enforce_new_defaults\n            and deprecated_rule.check_str != default.check_str",
+       "            not self.conf.oslo_policy.enforce_new_defaults\n            or deprecated_rule.check_str != default.check_str")], 'C11.TABLE')
+fire('c11-or-when-flag-on', 'C11',
+     [(POL, "            not self.conf.oslo_policy.enforce_new_defaults\n            and deprecated_rule.check_str",
+       "            self.conf.oslo_policy.enforce_new_defaults\n            and deprecated_rule.check_str")], 'C11.TABLE')
+fire('c11-and-instead-of-or', 'C11',
+     [(POL, "            return OrCheck([default.check, deprecated_rule.check])", "            return AndCheck([default.check, deprecated_rule.check])")], 'C11.TABLE')
+fire('c11-old-override-ignored', 'C11',
+     [(POL, "            deprecated_rule.name != default.name and\n            deprecated_rule.name in self.file_rules\n        ):",
+       "            deprecated_rule.name != default.name and\n            deprecated_rule.name not in self.file_rules\n        ):")], 'C11.TABLE')
+fire('c11-suppress-flag-influences', 'C11',
+     [(POL, "            and deprecated_rule.check_str != default.check_str\n            and default.name not in self.file_rules\n        ):",
+       "            and deprecated_rule.check_str != default.check_str\n            and default.name not in self.file_rules\n            and not self.suppress_default_change_warnings\n        ):")], 'C11.TABLE')
+fire('c11-handler-not-used', 'C11',
+     [(POL, "                if default.deprecated_rule:\n                    check = self._handle_deprecated_rule(default)\n", "")], 'C11.GATE')
+fire('c11-opt-default', 'C11',
+     [(OPTS, "    cfg.BoolOpt('enforce_new_defaults',\n                default=True,", "    cfg.BoolOpt('enforce_new_defaults',\n                default=False,")], 'C11.OPT')
+fire('c11-or-only-old', 'C11',
+     [(POL, "            return OrCheck([default.check, deprecated_rule.check])", "            return OrCheck([deprecated_rule.check])")], 'C11.TABLE')
+silent('c11-drop-name-ne', 'C11',
+       [(POL, "            deprecated_rule.name != default.name and\n            deprecated_rule.name in self.file_rules\n        ):", "            deprecated_rule.name in self.file_rules\n        ):")])
+silent('c11-drop-same-obj', 'C11',
+       [(POL, "                file_rule.check != deprecated_rule.check and\n                str(file_rule.check)", "                str(file_rule.check)")])
+silent('c11-drop-new-not-in-file-1', 'C11',
+       [(POL, "                str(file_rule.check) != 'rule:%s' % default.name and\n                default.name not in self.file_rules.keys()\n            ):",
+         "                str(file_rule.check) != 'rule:%s' % default.name\n            ):")])
+silent('c11-drop-new-not-in-file-2', 'C11',
+       [(POL, "            and deprecated_rule.check_str != default.check_str\n            and default.name not in self.file_rules\n        ):", "            and deprecated_rule.check_str != default.check_str\n        ):")])
+silent('c11-drop-check-str-ne', 'C11',
+       [(POL, "            not self.conf.oslo_policy.enforce_new_defaults\n            and deprecated_rule.check_str != default.check_str\n            and", "            not self.conf.oslo_policy.enforce_new_defaults\n            and")])
+silent('c11-no-warnings', 'C11',
+       [(POL, "            if not (\n                self.suppress_deprecation_warnings\n                or self.suppress_default_change_warnings\n            ):\n                warnings.warn(deprecated_msg)\n", "")])
